@@ -148,7 +148,7 @@ def cgStep (A M : Mat K) (b : Vec K) (s : CgSt K) : Step (CgSt K) K :=
   let Ap := mv A s.p
   let pAp := dotc Ap s.p
   if Scal.re pAp < 0 then .brk s.x brk1 else
-  if pAp = 0 then .brk s.x brkDiv else          -- division by zero: NaN/Inf in the implementation
+  if pAp = 0 then .brk s.x brk1 else            -- vanishing search direction: documented breakdown exit (-1)
   let α := s.rz / pAp
   let x := axpy α s.p s.x
   let r := if recur s.it 8 then axmy α Ap s.r else resid A b x
@@ -219,7 +219,7 @@ def cgneInit (A AH M : Mat K) (b x0 : Vec K) : NeSt K :=
 
 def cgneStep (A AH M : Mat K) (b : Vec K) (s : NeSt K) : Step (NeSt K) K :=
   let d := dotc s.p s.p
-  if d = 0 then .brk s.x brkDiv else
+  if d = 0 then .brk s.x brk1 else              -- vanishing search direction: breakdown exit (-1)
   let α := s.zr / d
   let x := axpy α s.p s.x
   let r := if recur s.it 8 then axmy α (mv A s.p) s.r else resid A b x
@@ -255,7 +255,7 @@ def cgnrInit (A AH M : Mat K) (b x0 : Vec K) : NrSt K :=
 def cgnrStep (A AH M : Mat K) (b : Vec K) (s : NrSt K) : Step (NrSt K) K :=
   let w := mv A s.p
   let d := dotc w w
-  if d = 0 then .brk s.x brkDiv else
+  if d = 0 then .brk s.x brk1 else              -- vanishing search direction: breakdown exit (-1)
   let α := s.zr / d
   let x := axpy α s.p s.x
   let r := if recur s.it 8 then axmy α w s.r else resid A b x
@@ -289,7 +289,7 @@ def biStep (A M : Mat K) (c : Crit) (t : Thr) (s : BiSt K) : Step (BiSt K) K :=
   let Mp := mv M s.p
   let AMp := mv A Mp
   let d := dotc s.rstar AMp
-  if d = 0 then .brk s.x brkDiv else
+  if s.rr = 0 ∨ d = 0 then .brk s.x brk1 else    -- (r, r*) = 0 or (A M p, r*) = 0: breakdown exit (-1)
   let α := s.rr / d
   let sv := axmy α AMp s.r
   -- the half step `x + α M p` is tested against its own threshold
@@ -300,10 +300,10 @@ def biStep (A M : Mat K) (c : Crit) (t : Thr) (s : BiSt K) : Step (BiSt K) K :=
   let d2 := dotc AMs AMs
   if d2 = 0 then .brk s.x brkDiv else
   let ω := dotc AMs sv / d2
+  if ω = 0 then .brk s.x brk1 else                 -- s ⟂ A M s: breakdown exit (-1) with the current iterate
   let x := axpy ω Ms (axpy α Mp s.x)
   let r := axmy ω AMs sv
   let rrNew := dotc s.rstar r
-  if s.rr = 0 ∨ ω = 0 then .brk x brkDiv else
   let β := (rrNew / s.rr) * (α / ω)
   .next ⟨x, r, axpy β (axmy ω AMp s.p) r, s.rstar, rrNew⟩
 
@@ -426,7 +426,7 @@ abstracted into two oracles: `gtest k` = "after the `k`-th inner iteration overa
 Givens estimate `|g|` is below the threshold", `rtest k` = "the explicitly recomputed residual of
 the iterate after `k` inner iterations is below the threshold"; `stag k` = the stagnation exit
 (relative update below `1e-12`).  `late` = `niter` is incremented after the early `break`
-(`_fgmres.py`) instead of before it. -/
+instead of before it (`_fgmres.py` before its repair 925d7a0; all three files now run with `late = false`). -/
 structure GDims where
   maxInner : Nat
   maxOuter : Nat
